@@ -106,6 +106,41 @@ def run(ctx) -> None:
         ctx.ok("VISIT", vc, vc.node, what="Char and CharSet terms are both rewritten")
     else:
         ctx.fail("VISIT", vc, vc.node, "visit_concatenation does not rewrite both character literals and character sets", construct="visit_concatenation kinds")
+    # each rewriter is called for every term of its kind: the only condition on the call is the kind test
+    from ..rules import schema as _S
+    _par = _S.parents_of(vc)
+    for helper, kind in (("_character_literal_to_surrogates_if_necessary", "Char"), ("_expand_char_set_to_surrogates_if_necessary", "CharSet")):
+        for c in [c for c in ast.walk(vc.node) if isinstance(c, ast.Call) and (dotted_of(c.func) or "").split(".")[-1] == helper]:
+            atoms = []
+
+            def _add(t, pol):
+                if isinstance(t, ast.UnaryOp) and isinstance(t.op, ast.Not):
+                    _add(t.operand, not pol)
+                elif isinstance(t, ast.BoolOp) and ((isinstance(t.op, ast.And) and pol) or (isinstance(t.op, ast.Or) and not pol)):
+                    for v in t.values:
+                        _add(v, pol)
+                else:
+                    atoms.append((t, pol))
+
+            for t, pol in _S.guards_of(c, _par):
+                _add(t, pol)
+            extra = []
+            for t, pol in atoms:
+                is_kind = isinstance(t, ast.Call) and dotted_of(t.func) == "isinstance" and len(t.args) == 2
+                if is_kind and pol and (dotted_of(t.args[1]) or "").split(".")[-1] == kind:
+                    continue
+                if is_kind and not pol:
+                    continue  # an earlier arm of the chain was for another kind
+                if not pol and isinstance(t, ast.BoolOp) and isinstance(t.op, ast.And) and any(
+                        isinstance(v, ast.Call) and dotted_of(v.func) == "isinstance" and len(v.args) == 2 and (dotted_of(v.args[1]) or "").split(".")[-1] != kind
+                        for v in t.values):
+                    continue  # the negation of an earlier arm that required another kind: true for every term of this kind
+                extra.append(("" if pol else "not ") + ast.unparse(t))
+            what = f"visit_concatenation: every {kind} term goes through {helper}"
+            if extra:
+                ctx.fail("VISIT", vc, c, f"{helper} is called only under the additional condition(s) {extra}: the {kind} terms excluded by it keep their astral characters, which a UTF-16 engine reads as two units (a quantifier then binds to the low surrogate alone)", construct=what)
+            else:
+                ctx.ok("VISIT", vc, c, what=what)
     rec = any(isinstance(n, ast.For) and any(isinstance(c, ast.Call) and dotted_of(c.func) == "self.visit" for c in ast.walk(n)) for n in ast.walk(vc.node))
     store = any(isinstance(n, ast.Assign) and dotted_of(n.targets[0]) == "node.concatenants" for n in ast.walk(vc.node))
     if rec and store:
